@@ -70,6 +70,22 @@ def _as_list(res) -> list:
     return list(res)
 
 
+def guarded_check(spec: TreeSpec, cd: D.ClassDesc, tree, extra) -> list:
+    """spec.check, with one safety net: an exception that escapes the check's own handling AND was raised from inside
+    the kio package (the innermost kio frame names it) is reported as a violation of the property whose operations the
+    check was performing, instead of aborting the run as a harness error.  Anything else is re-raised."""
+    from . import kioapi as K
+
+    try:
+        return _as_list(spec.check(cd, tree, extra))
+    except Exception as e:  # noqa: BLE001
+        sig = K.exc_signature(e)
+        if sig.endswith("@?"):
+            raise
+        return [(f"unexpected-exception:{sig}", f"{cd.path}: an operation of the check raised {e!r} from inside kio ({sig}); "
+                 f"the check performs only operations the property says must work")]
+
+
 def run_one_class(spec: TreeSpec, cd: D.ClassDesc, seed: int, n: int) -> Report:
     rep = Report(prop=spec.prop, level=spec.level, rule=spec.rule)
     extra_strat = spec.extra(cd) if spec.extra else st.none()
@@ -83,7 +99,7 @@ def run_one_class(spec: TreeSpec, cd: D.ClassDesc, seed: int, n: int) -> Report:
         rep.evaluations += 1
         labels = tree_labels(cd, tree)
         rep.labels.update(labels)
-        for sig, msg in _as_list(spec.check(cd, tree, extra)):
+        for sig, msg in guarded_check(spec, cd, tree, extra):
             size = len(json.dumps(tree_to_json(tree)))
             cur = raw_failures.get(sig)
             if cur is None or size < cur[0]:
@@ -107,12 +123,12 @@ def run_one_class(spec: TreeSpec, cd: D.ClassDesc, seed: int, n: int) -> Report:
     for sig, (_size, tree, extra, msg) in raw_failures.items():
         def still(t, sig=sig, extra=extra):
             try:
-                return any(s == sig for s, _ in _as_list(spec.check(cd, t, extra)))
+                return any(s == sig for s, _ in guarded_check(spec, cd, t, extra))
             except Exception:
                 return False
 
         small = minimize_tree(cd, tree, still)
-        msgs = [m for s, m in _as_list(spec.check(cd, small, extra)) if s == sig]
+        msgs = [m for s, m in guarded_check(spec, cd, small, extra) if s == sig]
         rep.add_failure(
             Failure(
                 signature=sig,
@@ -203,7 +219,7 @@ def replay_tree_case(spec: TreeSpec, case: dict) -> list:
     cd = D.describe(D.resolve(case["class"]))
     tree = tree_from_json(case["tree"])
     extra = extra_from_json(case.get("extra"))
-    return _as_list(spec.check(cd, tree, extra))
+    return guarded_check(spec, cd, tree, extra)
 
 
 # --------------------------------------------------------------------------- minimiser
